@@ -159,6 +159,20 @@ func (s *LinearState) Load(ctx *Context) error {
 			return err
 		}
 		s.Facts[id] = RawFact{m, js}
+
+		// As IndexedState.Load does (via add): tell the hook
+		// about the fact.  Otherwise a scheduled rule isn't
+		// scheduled again after a restart.
+		if s.addHook != nil {
+			loading := true
+			if loc := ctx.GetLoc(); loc != nil {
+				loading = loc.loading
+			}
+			if err = s.addHook(ctx, s, id, m, loading); err != nil {
+				Log(ERROR, ctx, "LinearState.Load", "state", s.Name, "error", err, "when", "addHook", "id", id)
+				return err
+			}
+		}
 	}
 
 	Log(DEBUG, ctx, "LinearState.Load", "location", s.Name, "facts", len(s.Facts))
